@@ -153,8 +153,23 @@ def run(ck):
               key='MPT-non-edges|criterion')
     # patterns helpers
     ok = u(apm.body[-1].value) == 'any((_pattern_match(molecule, atoms, rev_raw_match) for atoms in patterns))'
-    prets = stmts_with_env(pm, lambda s: isinstance(s, ast.Return))
-    ok = ok and sorted(str(try_fold(r[0].value, default='?')) for r in prets) == ['False', 'True'] and try_fold(pm.body[-1].value, default=0) is True
+    # _pattern_match interpreted: a pattern of three atoms against every combination of "this atom fits" (8 cases): it holds exactly when all three fit,
+    # each link atom being compared with the molecule atom the placement gives it
+    pm_ok = len(pm.args.args) == 3
+    if pm_ok:
+        mp_, ap_, rp_ = [a.arg for a in pm.args.args]
+        try:
+            for bits in range(8):
+                fits = {('mol-%d' % i, 'tmpl-%d' % i): bool(bits >> i & 1) for i in range(3)}
+                seen = []
+                env_ = {mp_ + '.nodes': {10 + i: 'mol-%d' % i for i in range(3)}, ap_: [('l%d' % i, 'tmpl-%d' % i) for i in range(3)], rp_: {'l%d' % i: 10 + i for i in range(3)},
+                        '_atoms_match': lambda a, b, fits=fits, seen=seen: (seen.append((a, b)) or fits[(a, b)])}
+                got = interp.call(pm.body, env_)
+                if got is not all(fits.values()) or any(pair not in fits for pair in seen):
+                    pm_ok = False
+        except (interp.Unsupported, KeyError, TypeError):
+            pm_ok = False
+    ok = ok and pm_ok
     ck.ob('MPT-non-edges', mod.loc(pm), ok, 'a pattern matches when all its atoms match; any matching pattern suffices', key='MPT-patterns')
 
     # ------------------------------------------------------------ order relation table (small-domain interpretation)
